@@ -48,6 +48,15 @@ theorem writeCalls_go (rsOn : Bool) (cs : List CTrack) (h : ∀ c ∈ cs, CTrack
     have := ih (fun c hc => h c (by simp [hc]))
     simp [writeCalls.go, encTrackBody_prep rsOn body δe hb hδ 0, this, chunkBytes]
 
+theorem writeTo_of_cs (rsOn : Bool) (s : File) (cs : List CTrack) (h1 : ∀ c ∈ cs, CTrackOK c)
+    (hp : s.prepared.tracks = cs.map prepTrack) (hcount : s.tracks.length < 65536) (hne : s.tracks ≠ []) :
+    writeTo rsOn s = .ok (encHeader s.prepared.format s.tracks.length s.tf ++ (cs.map (chunkBytes rsOn)).flatten) := by
+  have hlen : s.tracks.length % 65536 = s.tracks.length := Nat.mod_eq_of_lt hcount
+  have hne' : s.tracks.length ≠ 0 := by
+    intro h0; exact hne (List.eq_nil_of_length_eq_zero h0)
+  have htf : s.prepared.tf = s.tf := by simp [File.prepared]
+  simp [writeTo, hlen, hne', writeCalls, hp, htf, writeCalls_go rsOn cs h1]
+
 /-- the bytes `WriteTo` emits for a value of the domain, in AST terms -/
 theorem writeTo_dom (rsOn : Bool) (s : File) (h : Dom s) :
     ∃ cs : List CTrack, (∀ c ∈ cs, CTrackOK c) ∧ cs.length = s.tracks.length ∧
@@ -55,12 +64,7 @@ theorem writeTo_dom (rsOn : Bool) (s : File) (h : Dom s) :
       writeTo rsOn s = .ok (encHeader s.prepared.format s.tracks.length s.tf ++ (cs.map (chunkBytes rsOn)).flatten) := by
   obtain ⟨cs, h1, h2, h3⟩ := map_choice CTrackOK (fun t : Track => t.close 0) prepTrack s.tracks
     (fun t ht => close_of_TrackOK t (h.tracks t ht))
-  refine ⟨cs, h1, h3, by simp [File.prepared, h2], ?_⟩
-  have hlen : s.tracks.length % 65536 = s.tracks.length := Nat.mod_eq_of_lt h.count
-  have hne : s.tracks.length ≠ 0 := by
-    intro h0; exact h.nonempty (List.eq_nil_of_length_eq_zero h0)
   have hp : s.prepared.tracks = cs.map prepTrack := by simp [File.prepared, h2]
-  have htf : s.prepared.tf = s.tf := by simp [File.prepared]
-  simp [writeTo, hlen, hne, writeCalls, hp, htf, writeCalls_go rsOn cs h1]
+  exact ⟨cs, h1, h3, hp, writeTo_of_cs rsOn s cs h1 hp h.count h.nonempty⟩
 
 end Midi.Smf
